@@ -1,0 +1,10 @@
+//go:build verif
+// +build verif
+
+package render
+
+// Hooks for /verif property C12 (compiled only with -tags verif).
+
+// VerifAppendNum exposes appendNum (digit grouping / upper-casing of a
+// numeric literal's text).
+func VerifAppendNum(s string) string { return string(appendNum(nil, s)) }
